@@ -295,6 +295,55 @@ def check(ld, lens, p, via, res):
             pulled += 1
 
 
+def check_dual(ld, lens, p, res):
+    """Two iterators over ONE bucketing dataset alive at once (the first is
+    suspended after some batches, the second runs to its end, the first goes
+    on): every invariant holds for each iterator's own stream."""
+    case = {'lens': list(lens), 'params': p, 'via': 'method', 'two_iterators': True}
+    res.case(('dual', tuple(lens), tuple(p.items())), len(lens) >= 4)
+    logs = {1: [], 2: []}
+    cur = [1]
+
+    def pull(x):
+        logs[cur[0]].append(('pull', x[0]))
+        return x
+    examples = [(i, l) for i, l in enumerate(lens)]
+    kw = dict(expiration=p['exp'], max_buffered_examples=p['mb'], drop_incomplete=False,
+              batch_size=p['bs'], len_key=lambda x: x[1], max_padding_rate=p['rate'],
+              max_total_size=p['mts'],
+              sort_key=(None if p['sort'] is None else (lambda x: x[1])),
+              reverse_sort=(p['sort'] == 'desc'))
+    outs = {1: [], 2: []}
+    try:
+        ds = ld.new(examples).map(pull).batch_dynamic_time_series_bucket(**kw)
+        it1 = iter(ds)
+        for _ in range(max(1, len(lens) // 4)):
+            cur[0] = 1
+            b = next(it1, None)
+            if b is None:
+                break
+            outs[1].append((list(b), None))
+            logs[1].append(('emit', tuple(x[0] for x in b)))
+        cur[0] = 2
+        for b in ds:
+            outs[2].append((list(b), None))
+            logs[2].append(('emit', tuple(x[0] for x in b)))
+        cur[0] = 1
+        for b in it1:
+            outs[1].append((list(b), None))
+            logs[1].append(('emit', tuple(x[0] for x in b)))
+    except BaseException as e:
+        res.violation('bucket-iteration-raised', case, exc_sig(e),
+                      sig={'mode': 'nodrop', 'two_iterators': True})
+        return
+    res.count('two_iterator_runs_checked')
+    for who in (1, 2):
+        before = len(res.violations)
+        judge_nodrop(lens, p, logs[who], outs[who], {**case, 'iterator': who}, res)
+        for v in res.violations[before:]:
+            v['sig']['two_iterators'] = True
+
+
 def shards(tier, seed):
     lim = LIMITS[tier]
     out = []
@@ -337,6 +386,12 @@ def run_shard(spec, res):
             if via != 'class':
                 via += ':' + rng.choice(VIAS)
             check(ld, lens, p, via, res)
+        for _ in range(spec['nrand'] // 2):
+            lens = [rng.choice(ALPHABET) for _ in range(rng.choice((6, 12, 20)))]
+            p = dict(rng.choice(pts))
+            if p['mb'] is None and rng.random() < 0.7:
+                p['mb'] = rng.choice((1, 2, 3, 5))
+            check_dual(ld, lens, p, res)
         # long streams (several hundred examples, lengths up to 300)
         for L in (257, 300, 1000):
             for _ in range(spec.get('nlong', 6)):
@@ -369,4 +424,6 @@ def finalize(res, tier):
 
 def replay(case, res):
     ld = import_lazy_dataset()
+    if case.get('two_iterators'):
+        return check_dual(ld, case['lens'], case['params'], res)
     check(ld, case['lens'], case['params'], case.get('via', 'class'), res)
